@@ -619,6 +619,15 @@ fn run_case(env: &mut Env, progs: &[Vec<Op>], eager_local: bool, choose: &mut dy
     }
 
     loop {
+        // wave 2: a case whose threads keep taking steps (a CAS loop that spins, a retry path that never
+        // ends) must not hang the engine: the ranking measure of the model bounds the steps of any case
+        // by a few hundred; give up far above that, the driver reports `no-progress-within-the-measure`
+        if steps > STEP_CAP {
+            env.log.rec(format!("budget {}", show_progs(progs)), format!("exceeded steps={steps} cap={STEP_CAP}"));
+            env.log.flush();
+            eprintln!("admission: case exceeded {STEP_CAP} steps, giving up");
+            std::process::exit(0);
+        }
         if eager_local {
             let mut progress = true;
             while progress {
@@ -1077,6 +1086,9 @@ fn gen_ports_progs(rng: &mut Rng) -> Vec<Vec<Op>> {
 fn sr() -> Op {
     Op::Send { nested: Vec::new(), box_fails: false, resend: true, via: Via::Typed }
 }
+
+/// see `run_case`: far above `mu (init progs)` of any generated case
+const STEP_CAP: usize = 20_000;
 
 fn main() {
     let args = Args::parse();
